@@ -2,10 +2,10 @@
 CONSTANTS
   Variant = "overparen"
   MaxDepth = 2
-  FullDepth = 1
+  FullDepth = 0
   CtxDepth = 0
   StmtFull = FALSE
 INIT InitSpine
 NEXT NextSpine
-INVARIANTS RoundTrip Minimal
+INVARIANTS Minimal
 CHECK_DEADLOCK FALSE
